@@ -486,6 +486,9 @@ def resolved_on_every_apply(ctx, rule='A5r'):
 
 
 def check(ctx):
+    # copy/paste slips between the consecutive loops of the graph algorithms (F-seed C06-9)
+    guards.check_stale_loop_variables(ctx, [f for f in ctx.prog.all_functions() if f.module.name.startswith('adsg_core.graph.')])
+    ctx.floor('A29', 1, 'pairs of consecutive loops in the graph algorithms')
     resolved_on_every_apply(ctx)
     feasible_shape(ctx)
     handlers(ctx)
@@ -514,6 +517,10 @@ def check(ctx):
 from ..selftest import V  # noqa: E402
 
 VARIANTS = [
+    V('stale-loop-variable-in-option-decision-check', 'graph/incompatibility.py',
+      [("        option_nodes = {edge[1] for edge in iter_out_edges_cached(graph, option_decision_node, cache=cache)",
+        "        option_nodes = {edge[1] for edge in iter_out_edges_cached(graph, deriving_node, cache=cache)")],
+      key='stale-loop-variable'),
     V('infeasibility-marking-dropped-by-later-choice', 'graph/choices.py',
       [("    added_edges |= get_confirmed_incompatibility_edges(graph, start_nodes)\n", "")], key='infeasibility-marking-kept'),
     V('confirmed-upstream-node-handed-out', 'graph/incompatibility.py',
